@@ -292,6 +292,8 @@ enum Scope {
 #[derive(Clone, Debug)]
 enum Op {
     Add(Scope, String),
+    /// add commands for DIFFERENT dictionary files whose handlers run concurrently (requests that arrive together)
+    Par(Vec<(Scope, String)>),
     /// write the dictionary file with the real save_dict (stands for a sequence of adds)
     Seed(Scope, Vec<String>),
     /// the dictionary file is written by hand with this exact content (no final newline, CRLF, ...)
@@ -327,6 +329,7 @@ fn hist_json(h: &Hist, origin: &str) -> Value {
         .iter()
         .map(|o| match o {
             Op::Add(s, w) => json!(["add", scope_json(s), w]),
+            Op::Par(v) => json!(["par", v.iter().map(|(s, w)| json!([scope_json(s), w])).collect::<Vec<_>>()]),
             Op::Seed(s, ws) => json!(["seed", scope_json(s), ws]),
             Op::Raw(s, c) => json!(["raw", scope_json(s), c]),
             Op::Lint(u, t) => json!(["lint", u, t]),
@@ -343,6 +346,7 @@ fn hist_from(v: &Value) -> Option<Hist> {
         let a = o.as_array()?;
         match a.first()?.as_str()? {
             "add" => ops.push(Op::Add(scope_from(&a[1]), a[2].as_str()?.to_string())),
+            "par" => ops.push(Op::Par(a[1].as_array()?.iter().filter_map(|x| Some((scope_from(&x[0]), x[1].as_str()?.to_string()))).collect())),
             "seed" => ops.push(Op::Seed(scope_from(&a[1]), a[2].as_array()?.iter().filter_map(|x| x.as_str().map(|s| s.to_string())).collect())),
             "raw" => ops.push(Op::Raw(scope_from(&a[1]), a[2].as_str()?.to_string())),
             "lint" => ops.push(Op::Lint(a[1].as_u64()? as usize, a[2].as_str()?.to_string())),
@@ -636,6 +640,54 @@ fn run_hist(cx: &mut Cx, rep: &mut Report, h: &Hist, origin: &str) {
 
     for (oi, op) in h.ops.iter().enumerate() {
         match op {
+            Op::Par(adds) => {
+                // only adds to pairwise different dictionary files are run concurrently (two adds to the same
+                // dictionary are a read-modify-write race by design of the command; not this check's domain)
+                let mut seen: Vec<PathBuf> = vec![];
+                let mut todo: Vec<(Scope, String, String)> = vec![];
+                for (sc, w) in adds {
+                    let ui = match sc { Scope::User => 0usize, Scope::File(i) => *i };
+                    if ui >= urls.len() || key_of(sc).is_none() {
+                        continue;
+                    }
+                    let Some(p) = dict_path(sc) else { continue };
+                    if seen.contains(&p) {
+                        continue;
+                    }
+                    seen.push(p);
+                    todo.push((sc.clone(), w.clone(), urls[ui].uri.clone()));
+                }
+                let futs: Vec<HandlerFut> = todo
+                    .iter()
+                    .map(|(sc, w, uri)| {
+                        let cmd = if *sc == Scope::User { "HarperAddToUserDict" } else { "HarperAddToFileDict" };
+                        sess.start("workspace/executeCommand", json!({"command": cmd, "arguments": [w, uri]}), true)
+                    })
+                    .collect();
+                if !sess.drive_all(futs) {
+                    rep.fail("stuck", "concurrent add commands did not complete".into(), inp.clone());
+                    return;
+                }
+                rep.count(&format!("hist:concurrent_adds_{}", todo.len()));
+                // the dictionaries are different files: the outcome must be that of the adds one after the other
+                for (sc, w, _) in &todo {
+                    chars.extend(w.chars());
+                    allwords.insert(w.clone());
+                    cx.note_id(w);
+                    n_adds += 1;
+                    let after = dict_path(sc).map(|p| read_obs(&p).0);
+                    let tail = after.map(|o| format!(" : {o}")).unwrap_or_default();
+                    match sc {
+                        Scope::User => case_ops.push(format!("a : {}{}", wcps(w), tail)),
+                        Scope::File(i) => case_ops.push(format!("f {} : {}{}", i, wcps(w), tail)),
+                    }
+                    impl_ops.push("+".into());
+                    if let Some(k) = key_of(sc) {
+                        exp.added.entry(k.clone()).or_default().push(w.clone());
+                        add_log.push((oi, k, w.clone()));
+                    }
+                }
+            }
             Op::Add(sc, w) => {
                 let Some(ui) = (match sc { Scope::User => Some(0usize), Scope::File(i) => Some(*i) }) else { continue };
                 if ui >= urls.len() {
@@ -1296,7 +1348,7 @@ fn gen_pool(r: &mut Rng) -> Vec<String> {
 
 const URL_POOL: &[&str] = &[
     "f:a/b.txt", "f:a/c.txt", "f:c/b.txt", "f:b.txt", "f:notes.txt", "f:Notes.txt", "f:A/b.txt", "f:dir with space/x.txt", "f:ünï/çödé.txt", "f:ÜNÏ/çödé.txt", "f:a%b.txt", "f:a/b%c.txt",
-    "f:a/b.txt%", "f:100%/done.txt", "u:Untitled-1",
+    "f:a/b.txt%", "f:100%/done.txt", "f:notes.md", "f:a/b.md", "u:Untitled-1",
 ];
 /// (url, a url that differs from it only in letter case): distinct files on a case-sensitive file system
 const CASE_TWINS: &[(&str, &str)] = &[("f:notes.txt", "f:Notes.txt"), ("f:a/b.txt", "f:A/b.txt"), ("f:ünï/çödé.txt", "f:ÜNÏ/çödé.txt"), ("f:b.txt", "f:B.TXT")];
@@ -1362,6 +1414,17 @@ fn gen_hist(r: &mut Rng, crash: bool, malformed: bool) -> Hist {
             4..=7 => {
                 let ui = r.below(urls.len());
                 ops.push(Op::Lint(ui, fill(r.s(TEMPLATES), &pool, r)));
+            }
+            8 if urls.len() >= 2 && r.chance(1, 2) => {
+                // the client sends several add commands at once (e.g. "add all"): different dictionaries
+                let mut v = vec![];
+                for ui in 0..urls.len() {
+                    v.push((Scope::File(ui), pool[r.below(pool.len())].clone()));
+                }
+                if r.chance(1, 2) {
+                    v.push((Scope::User, pool[r.below(pool.len())].clone()));
+                }
+                ops.push(Op::Par(v));
             }
             8 => ops.push(Op::Restart),
             _ => {
